@@ -760,7 +760,10 @@ func (s *Stream) processSingleFieldFallback(fieldSpec string, dataMap map[string
 func (s *Stream) executeFunction(funcExpr string, data map[string]any) (any, error) {
 	// Check if it's a custom function
 	funcName := extractFunctionName(funcExpr)
-	if funcName != "" {
+	// Only a text that IS one call (its opening parenthesis is closed by the last
+	// character) is dispatched directly; "mod(y,5)*(x/4)" merely starts with a
+	// call and is evaluated as a general expression below.
+	if funcName != "" && matchingParen(funcExpr, strings.Index(funcExpr, "(")) == len(strings.TrimRight(funcExpr, " \t\r\n"))-1 {
 		// Use function system directly
 		fn, exists := functions.Get(funcName)
 		if exists {
@@ -806,7 +809,7 @@ func extractFunctionName(expr string) string {
 func (s *Stream) parseFunctionArgs(funcExpr string, data map[string]any) ([]any, error) {
 	// Extract parameters within parentheses
 	start := strings.Index(funcExpr, "(")
-	end := strings.LastIndex(funcExpr, ")")
+	end := matchingParen(funcExpr, start)
 	if start == -1 || end == -1 || end <= start {
 		return nil, fmt.Errorf("invalid function expression: %s", funcExpr)
 	}
@@ -896,6 +899,37 @@ func columnRefName(arg string) (string, bool) {
 		return "", false
 	}
 	return arg, arg[len(arg)-1] != '.'
+}
+
+// matchingParen returns the index of the ')' that closes the '(' at index open,
+// skipping parentheses inside quoted strings, or -1 if there is none.
+func matchingParen(s string, open int) int {
+	if open < 0 || open >= len(s) || s[open] != '(' {
+		return -1
+	}
+	depth := 0
+	quote := byte(0)
+	for i := open; i < len(s); i++ {
+		ch := s[i]
+		if quote != 0 {
+			if ch == quote {
+				quote = 0
+			}
+			continue
+		}
+		switch ch {
+		case '\'', '"', '`':
+			quote = ch
+		case '(':
+			depth++
+		case ')':
+			depth--
+			if depth == 0 {
+				return i
+			}
+		}
+	}
+	return -1
 }
 
 // containsExpressionOperator reports whether s contains an arithmetic or
